@@ -79,6 +79,22 @@ def _stats(cin):
     return {"res": "ok", "m": m, "rhosign": sign, "perfect": bool(float(bm.sse) == 0.0)}
 
 
+def _tq(cin):
+    import math
+    p = 2
+    n = cin["dof"] + p
+    idx = pd.date_range("2020-01-01", periods=n, freq="D", tz="UTC")
+    obs = 20.0 + (np.arange(n) * 7) % 11
+    pred = obs + ((np.arange(n) * 5) % 3 - 1.0)
+    df = pd.DataFrame({"observed": obs, "predicted": pred}, index=idx)
+    bm = _st["BM"](df=df, num_model_params=p)
+    if int(bm.ddof) != cin["dof"]:
+        return {"res": "BadRealisation", "fl": 0, "ce": 0, "err": "ddof %s" % bm.ddof}
+    rm = _st["RM"](baseline_metrics=bm, reporting_df=df, data_frequency="daily", confidence_level=cin["conf"] / 100.0, t_tail=cin["tail"])
+    t = float(rm.t_stat)
+    return {"res": "ok", "fl": int(math.floor(t * 1000)), "ce": int(math.ceil(t * 1000))}
+
+
 class _FakeMetrics:
     def __init__(self, cv, pn):
         self.cvrmse_adj = cv
@@ -155,7 +171,7 @@ def _stored(cin):
 
 def realise(cin, variant):
     try:
-        return {"stats": _stats, "gate": _gate, "stored": _stored}[cin["kind"]](cin)
+        return {"stats": _stats, "gate": _gate, "stored": _stored, "tq": _tq}[cin["kind"]](cin)
     except Exception as ex:
         import traceback
         return {"res": type(ex).__name__, "err": (str(ex) + traceback.format_exc())[-300:]}
@@ -181,3 +197,5 @@ def corruptions(cin, out):
         o = copy.deepcopy(out); o["poor"] = not o["poor"]; yield "gate", o
     if cin["kind"] == "stored":
         o = copy.deepcopy(out); o["gateOk"] = False; yield "stored", o
+    if cin["kind"] == "tq":
+        o = copy.deepcopy(out); o["fl"] += 300; o["ce"] += 300; yield "tquantile", o
